@@ -170,6 +170,31 @@ def mutations(base, other, rnd, n_havoc, cmd_desc=None):
             else:
                 pdu = bytes([cmd_desc["comm"], 3, L]) + pl
                 yield "wrong-length-consistent", b"\x00\x07\x00\x00" + len(pdu).to_bytes(2, "big") + pdu
+    # Modbus/TCP: truncations whose MBAP length field was rewritten to match (or undercut) what is actually there - as a re-framing
+    # gateway would produce; and complete frames with an arbitrary MBAP length (the field is ignored on purpose)
+    if cmd_desc is not None and cmd_desc["framing"] == "tcp":
+        for k in sorted({9, 10, len(base) - 1, len(base) - 2, rnd.randrange(9, max(10, len(base)))}):
+            if 9 <= k < len(base):
+                for ml in sorted({k - 6, max(0, k - 7), 3, 0}):
+                    yield "truncation-mbap-rewritten", base[:4] + ml.to_bytes(2, "big") + base[6:k]
+        for ml in (0, 3, 6, len(base) - 7, len(base) - 5, 0xFFFF):
+            yield "valid-any-mbap-length", base[:4] + ml.to_bytes(2, "big") + base[6:]
+    # write / write-multi answers that are well-formed and checksummed but echo ANOTHER register / value / count
+    if cmd_desc is not None and cmd_desc.get("kind") in ("write", "multi") and cmd_desc["framing"] in ("rtu", "tcp"):
+        reg = cmd_desc["reg"]
+        second = cmd_desc["value"] if cmd_desc["kind"] == "write" else cmd_desc["count"]
+        for r2, v2 in ((reg ^ 1, second), ((reg + 1) & 0xFFFF, second), (0 if reg else 5, second), (reg, second + 1), (reg, 5 if second != 5 else 6),
+                       (reg, 0 if second else 1), (reg, -second if second not in (0, -32768) else 7), (rnd.randrange(65536), rnd.randrange(1, 100))):
+            if (r2, v2) == (reg, second) or not -32768 <= v2 <= 32767:
+                continue
+            d2 = dict(cmd_desc, reg=r2)
+            if cmd_desc["kind"] == "write":
+                d2["value"] = v2
+            else:
+                if not 1 <= v2 <= 123:
+                    continue
+                d2["count"], d2["data"] = v2, bytes(2 * v2)
+            yield "echo-of-another-write", (rc.rtu_response(d2, None) if cmd_desc["framing"] == "rtu" else rc.tcp_response(d2, None, txid=7))
     for n in (0, 1, 4, 5, 8, 9, 10, 12, rnd.randrange(300), rnd.randrange(300)):
         yield "garbage", bytes(rnd.randrange(256) for _ in range(n))
 
